@@ -23,6 +23,7 @@ func init() {
 			"(R16.2) the directory cookie reaches the dirent cache as the guest's 64-bit value (no narrowing); (R16.3) descriptor allocation scans the occupancy words from word 0 (lowest-free) and grows by one word only when all are full; " +
 			"(R16.4) fd_readdir's reported bufused depends on the truncation indicator (an entry that does not fit is reported as truncated, not as end of directory); (R16.5) the dirent cache returns cached entries only after the refill test (a short result means end of directory); (R16.6) the dirent cache never reduces the requested count, because fd_readdir asks for one entry more than fits and reads a short answer as end-of-directory.",
 		Rules: []core.Rule{
+			{ID: "R16.8", Template: "T-MUSTPASS", Text: "Close of a sysfs file type closes the host object it wraps (genuine defect found and fixed: TCP connections)", Min: 3},
 			{ID: "R16.7", Template: "T-CONSULT", Text: "the dirent cache takes only an empty read for the end of the directory (genuine defect found and fixed)", Min: 2},
 			{ID: "R16.1", Template: "T-TYPESTATE", Text: "closed entries leave the table; re-insertion under a different key is guarded by key inequality; context close resets the table", Min: 4},
 			{ID: "R16.2", Template: "T-WIDTH", Text: "cookie passed to the dirent cache without narrowing", Min: 1},
@@ -33,6 +34,7 @@ func init() {
 		},
 		Run: runC16,
 		Controls: []core.Control{
+			{Name: "conn-close-only-shuts-down", File: "internal/sysfs/sock.go", Old: "\treturn experimentalsys.UnwrapOSError(f.tc.Close())\n", New: "\treturn f.Shutdown(socketapi.SHUT_RDWR)\n", Rule: "R16.8", Substr: "tcpConnFile"},
 			{Name: "eof-from-short-read", File: "internal/sys/fs.go", Old: "\t\t\t// A short count is not the end: Readdir skips entries which vanished while it read.\n\t\t\td.dirents = append(d.dirents, dirents...)", New: "\t\t\td.eof = countRead < countToRead\n\t\t\td.dirents = append(d.dirents, dirents...)", Rule: "R16.7", Substr: "end of directory"},
 			{Name: "dirent-count-clamped", File: "internal/sys/fs.go", Old: "\tif n == 0 {\n\t\treturn // special case no entries.\n\t}\n", New: "\tif n == 0 {\n\t\treturn // special case no entries.\n\t} else if n > 256 {\n\t\tn = 256\n\t}\n", Rule: "R16.6", Substr: "requested count"},
 			{Name: "renumber-self", File: "internal/sys/fs.go", Old: "\t} else if from == to {\n\t\treturn 0 // Renumbering onto itself is a no-op: closing \"to\" would close the file being moved.\n\t}", New: "\t}", Rule: "R16.1", Substr: "Renumber"},
@@ -83,6 +85,7 @@ func tableMethod(ci ssa.CallInstruction) string {
 
 func runC16(c *core.Ctx) {
 	checkDirentEOF(c)
+	checkCloseReachesHostObject(c)
 	c.SSA()
 	checkCountNotClamped(c)
 	sysFns := moduleFns(c, "internal/sys")
